@@ -170,52 +170,57 @@ theorem injFile_sections (w : Tape.World) (src : Str) (hsrc : CleanSrc src) (st 
         exact ⟨by intro p hp; simp [storedOn] at hp, fun _ => rfl, fun _ => rfl⟩
       · rename_i h3
         rw [if_neg h3]
-        obtain ⟨s2, hs2, hcase⟩ := announced_where_stored (splitSource src).1
-          (dispatch (splitSource src).1 (splitSource src).2.1 (splitSource src).2.2.1).2.2
-          (dispatch (splitSource src).1 (splitSource src).2.1 (splitSource src).2.2.1).1
-          (dispatch (splitSource src).1 (splitSource src).2.1 (splitSource src).2.2.1).2.1 data hname st h hc
-        rw [hs2] at hf
-        cases hf
-        rcases hcase with ⟨k, i0, r, hk4, hi0, hstored, hnone, hnew, hcur, hsa⟩ | ⟨hstored, hall⟩
-        · refine ⟨?_, fun _ => by rw [hsa, hcur], fun hb => by cases hb⟩
-          intro p hp
-          rw [hstored] at hp
-          simp only [List.mem_singleton] at hp
-          subst hp
-          refine ⟨hk4, i0, r, data, hi0, hnone, hnew, rfl, (reqBlocks_formula data.length).symm,
-            (dispatch (splitSource src).1 (splitSource src).2.1 (splitSource src).2.2.1).1,
-            (dispatch (splitSource src).1 (splitSource src).2.1 (splitSource src).2.2.1).2.1, ?_⟩
-          show IsRecordOf r (splitSource src).1 (dispatch (splitSource src).1 (splitSource src).2.1 (splitSource src).2.2.1).2.2 _ _ data.length
-          -- the entry bytes: the one slot that changed holds the record of this file
-          obtain ⟨s3, hs3, _, hone⟩ := injWriteFile_step (splitSource src).1
+        split at hf
+        · rename_i ha; rw [if_pos ha]; cases hf
+          exact ⟨by intro p hp; simp [storedOn] at hp, fun _ => rfl, fun _ => rfl⟩
+        · rename_i ha
+          rw [if_neg ha]
+          obtain ⟨s2, hs2, hcase⟩ := announced_where_stored (splitSource src).1
             (dispatch (splitSource src).1 (splitSource src).2.1 (splitSource src).2.2.1).2.2
             (dispatch (splitSource src).1 (splitSource src).2.1 (splitSource src).2.2.1).1
-            (dispatch (splitSource src).1 (splitSource src).2.1 (splitSource src).2.2.1).2.1 data hname 4 st h
-          rw [hs2] at hs3
-          cases hs3
-          rcases hone with hsame | ⟨k3, i3, hk3, hi3, _, ⟨r3, hr3, hrec3⟩, hrest3⟩
-          · rw [hsame k i0 hk4 hi0, hnone] at hnew; cases hnew
-          · have hki : k = k3 ∧ i0 = i3 := by
-              apply Classical.byContradiction
-              intro hne
-              have := hrest3 k i0 hk4 hi0 hne
-              rw [this, hnone] at hnew; cases hnew
-            rw [← hki.1, ← hki.2, hnew] at hr3
-            cases hr3
-            exact hrec3
-        · refine ⟨by intro p hp; rw [hstored] at hp; simp at hp, ?_, fun hb => by cases hb⟩
-          intro hlt
-          -- nothing stored: the cursor ran past the last side
-          exfalso
-          obtain ⟨st3, hst3, hpl⟩ := injWriteFile_place (splitSource src).1
-            (dispatch (splitSource src).1 (splitSource src).2.1 (splitSource src).2.2.1).2.2
-            (dispatch (splitSource src).1 (splitSource src).2.1 (splitSource src).2.2.1).1
-            (dispatch (splitSource src).1 (splitSource src).2.1 (splitSource src).2.2.1).2.1 data hname 4 st h (by omega)
-          rw [hs2] at hst3
-          cases hst3
-          rcases hpl with ⟨k, _, hk4, _, _, _, i0, r, hi0, hnone, hnew⟩ | ⟨_, h4, _⟩
-          · rw [hall k i0 hk4 hi0, hnone] at hnew; cases hnew
-          · omega
+            (dispatch (splitSource src).1 (splitSource src).2.1 (splitSource src).2.2.1).2.1 data hname st h hc
+          rw [hs2] at hf
+          cases hf
+          rcases hcase with ⟨k, i0, r, hk4, hi0, hstored, hnone, hnew, hcur, hsa⟩ | ⟨hstored, hall⟩
+          · refine ⟨?_, fun _ => by rw [hsa, hcur], fun hb => by cases hb⟩
+            intro p hp
+            rw [hstored] at hp
+            simp only [List.mem_singleton] at hp
+            subst hp
+            refine ⟨hk4, i0, r, data, hi0, hnone, hnew, rfl, (reqBlocks_formula data.length).symm,
+              (dispatch (splitSource src).1 (splitSource src).2.1 (splitSource src).2.2.1).1,
+              (dispatch (splitSource src).1 (splitSource src).2.1 (splitSource src).2.2.1).2.1, ?_⟩
+            show IsRecordOf r (splitSource src).1 (dispatch (splitSource src).1 (splitSource src).2.1 (splitSource src).2.2.1).2.2 _ _ data.length
+            -- the entry bytes: the one slot that changed holds the record of this file
+            obtain ⟨s3, hs3, _, hone⟩ := injWriteFile_step (splitSource src).1
+              (dispatch (splitSource src).1 (splitSource src).2.1 (splitSource src).2.2.1).2.2
+              (dispatch (splitSource src).1 (splitSource src).2.1 (splitSource src).2.2.1).1
+              (dispatch (splitSource src).1 (splitSource src).2.1 (splitSource src).2.2.1).2.1 data hname 4 st h
+            rw [hs2] at hs3
+            cases hs3
+            rcases hone with hsame | ⟨k3, i3, hk3, hi3, _, ⟨r3, hr3, hrec3⟩, hrest3⟩
+            · rw [hsame k i0 hk4 hi0, hnone] at hnew; cases hnew
+            · have hki : k = k3 ∧ i0 = i3 := by
+                apply Classical.byContradiction
+                intro hne
+                have := hrest3 k i0 hk4 hi0 hne
+                rw [this, hnone] at hnew; cases hnew
+              rw [← hki.1, ← hki.2, hnew] at hr3
+              cases hr3
+              exact hrec3
+          · refine ⟨by intro p hp; rw [hstored] at hp; simp at hp, ?_, fun hb => by cases hb⟩
+            intro hlt
+            -- nothing stored: the cursor ran past the last side
+            exfalso
+            obtain ⟨st3, hst3, hpl⟩ := injWriteFile_place (splitSource src).1
+              (dispatch (splitSource src).1 (splitSource src).2.1 (splitSource src).2.2.1).2.2
+              (dispatch (splitSource src).1 (splitSource src).2.1 (splitSource src).2.2.1).1
+              (dispatch (splitSource src).1 (splitSource src).2.1 (splitSource src).2.2.1).2.1 data hname 4 st h (by omega)
+            rw [hs2] at hst3
+            cases hst3
+            rcases hpl with ⟨k, _, hk4, _, _, _, i0, r, hi0, hnone, hnew⟩ | ⟨_, h4, _⟩
+            · rw [hall k i0 hk4 hi0, hnone] at hnew; cases hnew
+            · omega
 
 theorem injLoop_sections (w : Tape.World) : ∀ (srcs : List Str) (st : Inj), (∀ src ∈ srcs, CleanSrc src) → ImgOk st.img → st.cur < 4 →
     ∃ st', injLoop w srcs st = .ok st' ∧ ImgOk st'.img ∧ Keeps st.img st'.img
